@@ -10,6 +10,13 @@ from .common import file_entries, case_from_cfg, draw_prefix, frame_rows, write_
 
 
 def breakdown_cfg(rng: random.Random, tier: str) -> gen.GenCfg:
+    cfg = _breakdown_cfg(rng, tier)
+    if rng.random() < 0.3:          # a sampled job: the rank numbers are not 0..n-1
+        cfg.rank_ids = tuple(sorted(rng.sample(range(0, 9), cfg.n_ranks)))
+    return cfg
+
+
+def _breakdown_cfg(rng: random.Random, tier: str) -> gen.GenCfg:
     big = tier == "thorough" and rng.random() < 0.3
     return gen.GenCfg(
         n_ranks=rng.choice([1, 1, 2, 3, 4] if tier == "thorough" else [1, 1, 2]),
@@ -62,6 +69,15 @@ class C04(Prop):
                 df = ta.get_temporal_breakdown(visualize=False)
             except Exception as ex:
                 obs["err"] = hta.exc_str(ex)
+                obs["ranks"] = [{"rank": r, "file": file_entries(case, r), "rows": rows[r]} for r in ranks]
+                return obs
+            # the shape of the result is part of the contract: exactly one row per loaded rank, keyed by that rank
+            try:
+                got = [int(x) for x in df["rank"].tolist()]
+            except Exception as ex:
+                got = None
+            if got is None or sorted(got) != ranks:
+                obs["err"] = f"result rows are keyed {list(df['rank'])!r}, the loaded ranks are {ranks}".replace('"', "'")
                 obs["ranks"] = [{"rank": r, "file": file_entries(case, r), "rows": rows[r]} for r in ranks]
                 return obs
             for _, row in df.iterrows():
